@@ -404,6 +404,30 @@ pub fn all() -> Vec<Scenario> {
         symptom_oracles: vec!["reference_target"],
     });
 
+    // F17 (known), mapping variant: a reference to the target travels before the target's pre-spawn mapping.
+    let mut pw17 = prof();
+    pw17.app.vis = 2;
+    v.push(Scenario {
+        id: "F17",
+        props: vec!["C01", "C02"],
+        trace: Trace {
+            profile: pw17,
+            steps: cat(vec![
+                vec![Step::ServerStart, spawn(1, &[Kind::A]), spawn(0, &[Kind::A]), Step::Connect { client: 0 }],
+                vec![Step::SetVis { client: 0, slot: 1, visible: true }, Step::Point { slot: 1, kind: Kind::Ref, target: 0 }],
+                round(),
+                vec![
+                    Step::SetVis { client: 0, slot: 0, visible: true },
+                    Step::PreSpawn { client: 0, cslot: 0 },
+                    Step::MapPreSpawn { client: 0, slot: 0, cslot: 0 },
+                ],
+                round(),
+                vec![Step::Heal],
+            ]),
+        },
+        symptom_oracles: vec!["reference_target"],
+    });
+
     // F20 (known): replication at tick 0 cannot be told from "nothing received yet".
     v.push(Scenario {
         id: "F20",
